@@ -24,6 +24,20 @@ def P(name, fn, tiers=("quick", "thorough")):
     return {"kind": "py", "name": name, "fn": fn, "tiers": tiers}
 
 
+def M(name, mode, shards, group=None, timeout=5400, tiers=("thorough",)):
+    """Miri stage: `shards` is a list of argument lists, run as parallel interpreter processes."""
+    return {"kind": "miri", "name": name, "mode": mode, "shards": shards, "group": group or ("miri-" + mode),
+            "timeout": timeout, "tiers": tiers}
+
+
+def asan_signature(err):
+    """First in-repository frame of an AddressSanitizer report."""
+    import re  # noqa: PLC0415
+    kind = re.search(r"ERROR: AddressSanitizer: (\S+)", err)
+    frame = re.search(r"#\d+ 0x[0-9a-f]+ in (\S*(?:engine|chess)::\S+)", err)
+    return f"asan.{kind.group(1) if kind else 'report'}@{frame.group(1)[:80] if frame else '?'}"
+
+
 def run_stages(pid, tier, seed, t0, level, stages, required=(), assumptions=(), exhaustive=None):
     out = Outcome(pid, tier, seed, level)
     out.assumptions = list(assumptions)
@@ -37,8 +51,32 @@ def run_stages(pid, tier, seed, t0, level, stages, required=(), assumptions=(), 
             if prof not in bins:
                 bins[prof] = build_harness(prof)
             outp = os.path.join(TMP, f"{pid}-{st['name']}-{tier}-{seed}.json")
-            rep, status, err = run_harness(bins[prof], st["mode"], st["args"], seed, tier, outp, st["timeout"],
-                                           st.get("env"))
+            sargs = st["args"]
+            env = dict(st.get("env") or {})
+            if prof == "asan":
+                env["ASAN_OPTIONS"] = "halt_on_error=1:abort_on_error=0:detect_leaks=0"
+            rep, status, err = run_harness(bins[prof], st["mode"], sargs, seed, tier, outp, st["timeout"], env)
+            if rep is None and prof == "asan" and "AddressSanitizer" in err:
+                # halt_on_error: the report is the observation, attributed to this stage's workload
+                out.add_violation(st["name"], f"{pid.lower()}.{asan_signature(err)}",
+                                  "AddressSanitizer report:\n" + err[err.find("ERROR: AddressSanitizer"):][:1500],
+                                  {"kind": "harness", "prefix": ["asan"], "args": [st["mode"]] + st["args"], "detail": None})
+                continue
+            if rep is None and status.startswith("crashed"):
+                # The harness itself contains no unsafe code: a failed unsafe-precondition check (debug
+                # assertions instrument get_unchecked & co.) or a glibc heap-consistency abort during a
+                # monitored workload is an observation about the code under test, not a harness error.
+                markers = [("unsafe precondition(s) violated", "ub-check"), ("free(): invalid", "heap-corruption"),
+                           ("malloc(): ", "heap-corruption"), ("double free or corruption", "heap-corruption"),
+                           ("corrupted size vs. prev_size", "heap-corruption"), ("munmap_chunk(): invalid", "heap-corruption"),
+                           ("malloc_consolidate(): ", "heap-corruption")]
+                hit = next(((m, k) for (m, k) in markers if m in err), None)
+                if hit:
+                    line = next((x for x in err.splitlines() if hit[0] in x), hit[0])
+                    out.add_violation(st["name"], f"{pid.lower()}.{hit[1]}",
+                                      f"stage {st['name']} ({st['mode']} {' '.join(sargs)}, seed {seed}) aborted: {line[:300]}",
+                                      {"kind": "harness", "prefix": [prof], "args": [st["mode"]] + list(sargs), "detail": err[-1500:]})
+                    continue
             if rep is None:
                 if status == "timeout":
                     out.add_inconclusive({"stage": st["name"], "why": "stage watchdog fired"})
@@ -49,6 +87,28 @@ def run_stages(pid, tier, seed, t0, level, stages, required=(), assumptions=(), 
             out.add_report(st["name"], rep, st["group"], replay_prefix=[prof])
         elif st["kind"] == "py":
             st["fn"](out, tier, seed)
+        elif st["kind"] == "miri":
+            from concurrent.futures import ThreadPoolExecutor  # noqa: PLC0415
+
+            def one(i_args):
+                i, a = i_args
+                outp = os.path.join(TMP, f"{pid}-{st['name']}-{i}-{tier}-{seed}.json")
+                return a, vc.run_miri(st["mode"], a, seed, tier, outp, st["timeout"])
+            with ThreadPoolExecutor(max_workers=8) as ex:
+                results = list(ex.map(one, enumerate(st["shards"])))
+            for a, (rep, status, err) in results:
+                if status == "miri-ub":
+                    out.add_violation(st["name"], f"{pid.lower()}.miri.undefined-behaviour",
+                                      "Miri: " + rep["miri_error"][:1500],
+                                      {"kind": "miri", "mode": st["mode"], "args": a})
+                elif rep is None:
+                    if status == "timeout":
+                        out.add_inconclusive({"stage": st["name"], "why": "Miri stage watchdog fired", "args": a})
+                    else:
+                        out.errors.append(f"miri stage {st['name']} {a} {status}: {err[-800:]}")
+                else:
+                    out.add_report(st["name"], rep, st["group"], replay_prefix=["miri"])
+            out.features["miri_processes"] = out.features.get("miri_processes", 0) + len(st["shards"])
     return finish(out, t0, required)
 
 
@@ -84,6 +144,8 @@ def replay(pid, path, opts):
 def c01(pid, tier, seed, t0):
     stages = [
         H("movegen-checked", "c01", "checked"),
+        H("movegen-asan", "c01", "asan", group="c01-asan", tiers=("thorough",), args=["--tier-override", "quick"]),
+        M("movegen-miri", "miri-c01", [["--root-lo", str(i), "--root-hi", str(i + 1)] for i in range(0, 10, 2)]),
     ]
     return run_stages(pid, tier, seed, t0, "exploration", stages,
                       required=("ep_capture_legal", "ep_pseudo_but_illegal", "double_check", "castling_legal",
@@ -104,7 +166,8 @@ WALK_ASSUME = ["oracle = refchess advanced by the same moves (rules), pre-move s
 
 
 def c02(pid, tier, seed, t0):
-    stages = [H("walk-checked", "c02", "checked", args=["--scale", "3"])]
+    stages = [H("walk-checked", "c02", "checked", args=["--scale", "3"]),
+              M("walk-miri", "miri-c02", [["--root-lo", str(i), "--root-hi", str(i + 1)] for i in range(0, 10, 2)])]
     return run_stages(pid, tier, seed, t0, "exploration", stages,
                       required=WALK_FEATURES + ("double_push_with_neighbour", "double_push_without_neighbour",
                                                 "double_push_neighbour_cannot_capture"),
@@ -144,7 +207,8 @@ def c06(pid, tier, seed, t0):
 
 def c07(pid, tier, seed, t0):
     stages = [H("tables-checked", "c07", "checked"),
-              H("tables-opt", "c07", "opt", group="c07-opt")]
+              H("tables-opt", "c07", "opt", group="c07-opt"),
+              M("tables-miri", "c07", [["--single-thread", "--sq-lo", str(i), "--sq-hi", str(i + 7)] for i in range(0, 64, 8)])]
     rc = run_stages(pid, tier, seed, t0, "exploration", stages,
                     required=("rook_subsets", "bishop_subsets", "between_pairs", "leaper_entries"),
                     assumptions=["oracle = coordinate-arithmetic ray walk written for this check",
@@ -199,7 +263,9 @@ def c18(pid, tier, seed, t0):
 
 def c19(pid, tier, seed, t0):
     stages = [H("tt-checked", "c19", "checked"),
-              H("tt-opt", "c19", "opt", group="c19-opt", args=["--no-size-sweep"])]
+              H("tt-opt", "c19", "opt", group="c19-opt", args=["--no-size-sweep"]),
+              H("tt-asan", "c19", "asan", group="c19-asan", tiers=("thorough",), args=["--histories", "8000", "--max-ops", "8000", "--no-size-sweep"]),
+              M("tt-miri", "c19", [["--threads", "1", "--histories", "5", "--max-ops", "1200", "--sizes", "0,1", "--no-size-sweep", "--seed-add", str(i)] for i in range(8)], timeout=3600)]
     return run_stages(pid, tier, seed, t0, "exploration", stages,
                       required=("insert_must_not_displace_exact", "insert_over_older_search", "insert_policy_free",
                                 "slot_collision_different_keys", "probe_hits", "probe_misses", "reset", "resize",
@@ -230,6 +296,7 @@ def c04(pid, tier, seed, t0):
     stages = [
         H("search-checked", "c04", "checked", group="c04"),
         H("search-opt", "c04", "opt", group="c04-opt"),
+        H("search-asan", "c04", "asan", group="c04-asan", tiers=("thorough",), args=["--cases", "6000", "--depth-budget", "6"]),
         P("binary-sessions", _pm2("c04_stage")),
     ]
     return run_stages(pid, tier, seed, t0, "exploration", stages, required=SEARCH_FEATURES + ("searches",),
